@@ -9,7 +9,7 @@ K = ['null', 'bool', 'int', 'float']
 
 
 def build(repo):
-    u = KaniUnit('sortcmp', ['C17'], 'grafeo-core', cargo_args=['--no-default-features', '--features', 'spill'], copy_crates=['grafeo-common', 'grafeo-core'])
+    u = KaniUnit('sortcmp', ['C17'], 'grafeo-core', cargo_args=['--no-default-features', '--features', 'spill,parallel'], copy_crates=['grafeo-common', 'grafeo-core'])
     u.module = 'execution::spill::external_sort::verif_sortcmp'
     text = open(os.path.join(os.path.dirname(os.path.dirname(os.path.abspath(__file__))), 'kani', 'sortcmp.rs')).read()
     gen = []
@@ -21,6 +21,9 @@ def build(repo):
             n = 'pull_vs_push_%s_%s' % (a, b)
             gen.append('pair!(%s, pull_vs_push, %d, %d);' % (n, i, j))
             u.harness(n, 'sort::compare::pull_agrees_with_push(%s,%s)' % (a, b), timeout=600)
+            n = 'merge_vs_push_%s_%s' % (a, b)
+            gen.append('pair!(%s, merge_vs_push, %d, %d);' % (n, i, j))
+            u.harness(n, 'sort::compare::parallel_merge_agrees_with_push_sort(%s,%s)' % (a, b), timeout=600)
     u.append(SPILL, text.replace('//@GENERATED@', '\n    '.join(gen)))
     # insert-only wrappers that make the two private comparators callable from the harness module
     u.append(PUSH, '\n#[cfg(kani)]\npub(crate) fn kani_compare_rows(a: &[Value], b: &[Value], keys: &[SortKey]) -> Ordering { compare_rows(a, b, keys) }\n')
@@ -28,7 +31,9 @@ def build(repo):
                    '    compare_values_with_nulls(a, b, if nulls_first { NullOrder::NullsFirst } else { NullOrder::NullsLast })\n}\n')
     u.append('crates/grafeo-core/src/execution/operators/push/mod.rs', '\n#[cfg(kani)]\npub(crate) use sort::kani_compare_rows;\n')
     u.append('crates/grafeo-core/src/execution/operators/mod.rs', '\n#[cfg(kani)]\npub(crate) use sort::kani_compare_values_with_nulls;\n')
-    u.functions = [('compare_rows, compare_values (external sort / k-way merge)', SPILL), ('compare_rows, compare_values (push sort, sorts every spilled run)', PUSH),
+    u.append('crates/grafeo-core/src/execution/parallel/merge.rs', '\n#[cfg(kani)]\npub(crate) fn kani_compare_values_for_sort(a: Option<&Value>, b: Option<&Value>, nulls_first: bool) -> Ordering { compare_values_for_sort(a, b, nulls_first) }\n')
+    u.append('crates/grafeo-core/src/execution/parallel/mod.rs', '\n#[cfg(kani)]\npub(crate) use merge::kani_compare_values_for_sort;\n')
+    u.functions = [('compare_values_for_sort, compare_values (parallel k-way merge of sorted runs)', 'crates/grafeo-core/src/execution/parallel/merge.rs'), ('compare_rows, compare_values (external sort / k-way merge)', SPILL), ('compare_rows, compare_values (push sort, sorts every spilled run)', PUSH),
                    ('compare_values_with_nulls, compare_values (pull sort)', PULL)]
     u.assumptions = ['one sort column (each further key repeats the same code on another column); the Descending reversal of the pull sort sits in a closure and is not callable: the pull comparison is checked for the ascending key']
     u.not_covered = ['String keys (heap)', 'the sort_by / BinaryHeap machinery around the comparators, spill file I/O, run generation']
